@@ -12,6 +12,7 @@ import (
 	"fmt"
 	"io"
 	"os"
+	"reflect"
 	"runtime"
 	"sort"
 	"strconv"
@@ -34,6 +35,101 @@ type C11State struct {
 	Order []int // commit log: global node id of every state operation, appended under the lock
 }
 
+// c11StateLike: what the generated handlers and bodies need of a state value, whatever its
+// representation.  Besides the pointer state `*C11State` there are three NON-pointer state
+// types whose values still share storage when they are handed around by value (a map, a
+// map[string]any, a struct value holding a slice): the engine's mutual exclusion has to
+// cover them exactly like a pointer state.
+type c11StateLike interface {
+	sKey() uintptr // identity of the shared storage, computed without touching it
+	sID() int
+	sCtr(i int) int
+	sSetCtr(i, v int)
+	sSeq() int
+	sSetSeq(v int)
+	sLog(gid int)
+	sSnap(gen bool) c11StateObs
+}
+
+func (s *C11State) sKey() uintptr              { return reflect.ValueOf(s).Pointer() }
+func (s *C11State) sID() int                   { return s.ID }
+func (s *C11State) sCtr(i int) int             { return s.Ctr[i] }
+func (s *C11State) sSetCtr(i, v int)           { s.Ctr[i] = v }
+func (s *C11State) sSeq() int                  { return s.Seq }
+func (s *C11State) sSetSeq(v int)              { s.Seq = v }
+func (s *C11State) sLog(gid int)               { s.Order = append(s.Order, gid) }
+func (s *C11State) sSnap(gen bool) c11StateObs { return c11Snapshot(s, gen) }
+
+// C11MapInt: a map state, map[string]int.  Keys: id, ctrs, c<i>, seq, n (length of the log), o<k>.
+type C11MapInt map[string]int
+
+func (m C11MapInt) sKey() uintptr    { return reflect.ValueOf(m).Pointer() }
+func (m C11MapInt) sID() int         { return m["id"] }
+func (m C11MapInt) sCtr(i int) int   { return m["c"+strconv.Itoa(i)] }
+func (m C11MapInt) sSetCtr(i, v int) { m["c"+strconv.Itoa(i)] = v }
+func (m C11MapInt) sSeq() int        { return m["seq"] }
+func (m C11MapInt) sSetSeq(v int)    { m["seq"] = v }
+func (m C11MapInt) sLog(gid int) {
+	n := m["n"]
+	m["o"+strconv.Itoa(n)] = gid
+	m["n"] = n + 1
+}
+func (m C11MapInt) sSnap(gen bool) c11StateObs {
+	o := c11StateObs{ID: m["id"], Gen: gen, Seq: m["seq"], Ctr: []int{}, Order: []int{}}
+	for i := 0; i < m["ctrs"]; i++ {
+		o.Ctr = append(o.Ctr, m["c"+strconv.Itoa(i)])
+	}
+	for k := 0; k < m["n"]; k++ {
+		o.Order = append(o.Order, m["o"+strconv.Itoa(k)])
+	}
+	return o
+}
+
+// C11MapAny: map[string]any with id / seq (int) and ctr / order ([]int).
+type C11MapAny map[string]any
+
+func (m C11MapAny) sKey() uintptr    { return reflect.ValueOf(m).Pointer() }
+func (m C11MapAny) sID() int         { return m["id"].(int) }
+func (m C11MapAny) sCtr(i int) int   { return m["ctr"].([]int)[i] }
+func (m C11MapAny) sSetCtr(i, v int) { m["ctr"].([]int)[i] = v }
+func (m C11MapAny) sSeq() int        { return m["seq"].(int) }
+func (m C11MapAny) sSetSeq(v int)    { m["seq"] = v }
+func (m C11MapAny) sLog(gid int)     { m["order"] = append(m["order"].([]int), gid) }
+func (m C11MapAny) sSnap(gen bool) c11StateObs {
+	return c11StateObs{ID: m.sID(), Gen: gen, Seq: m.sSeq(), Ctr: append([]int{}, m["ctr"].([]int)...), Order: append([]int{}, m["order"].([]int)...)}
+}
+
+// C11Box: a struct VALUE holding a slice (of length 1): every copy of the struct shares the cell.
+type C11Box struct {
+	Cell []C11State
+}
+
+func (b C11Box) sKey() uintptr              { return reflect.ValueOf(b.Cell).Pointer() }
+func (b C11Box) sID() int                   { return b.Cell[0].ID }
+func (b C11Box) sCtr(i int) int             { return b.Cell[0].Ctr[i] }
+func (b C11Box) sSetCtr(i, v int)           { b.Cell[0].Ctr[i] = v }
+func (b C11Box) sSeq() int                  { return b.Cell[0].Seq }
+func (b C11Box) sSetSeq(v int)              { b.Cell[0].Seq = v }
+func (b C11Box) sLog(gid int)               { b.Cell[0].Order = append(b.Cell[0].Order, gid) }
+func (b C11Box) sSnap(gen bool) c11StateObs { return c11Snapshot(&b.Cell[0], gen) }
+
+func c11NewPtr(id, ctrs int) *C11State {
+	return &C11State{ID: id, Ctr: make([]int, ctrs), Order: []int{}}
+}
+func c11NewMapInt(id, ctrs int) C11MapInt {
+	m := C11MapInt{"id": id, "ctrs": ctrs, "seq": 0, "n": 0}
+	for i := 0; i < ctrs; i++ {
+		m["c"+strconv.Itoa(i)] = 0
+	}
+	return m
+}
+func c11NewMapAny(id, ctrs int) C11MapAny {
+	return C11MapAny{"id": id, "seq": 0, "ctr": make([]int, ctrs), "order": []int{}}
+}
+func c11NewBox(id, ctrs int) C11Box {
+	return C11Box{Cell: []C11State{{ID: id, Ctr: make([]int, ctrs), Order: []int{}}}}
+}
+
 var c11NextID int64
 var c11RegOnce sync.Once
 
@@ -46,6 +142,55 @@ type c11RunRec struct {
 	nodes   map[string]*c11NodeObs
 	rerun   map[string]bool
 	eager   *c11EagerCtl
+	// non-pointer state types: the objects the generator made, one "somebody is inside" flag per
+	// object (keyed by the identity of its shared storage) and the overlap count
+	genVals  []c11StateLike
+	flags    sync.Map // uintptr -> *int32
+	overlaps int32
+}
+
+// generated: the state generator has produced s in this run.
+func (r *c11RunRec) generated(s c11StateLike) {
+	r.mu.Lock()
+	if p, ok := s.(*C11State); ok {
+		r.genPtrs = append(r.genPtrs, p)
+	} else {
+		r.genVals = append(r.genVals, s)
+		r.flags.Store(s.sKey(), new(int32))
+	}
+	r.mu.Unlock()
+}
+
+// enter / leave bracket the user code of every state operation.  Pointer states: nothing to do
+// (their accesses are unguarded, an overlap shows as a lost update / a race report).  Non-pointer
+// states: the operation may touch the state only if nobody else is inside; otherwise the overlap
+// is counted and the state is NOT touched (an unsynchronised concurrent map access would kill
+// the process with "concurrent map writes" instead of giving an observation).
+func (r *c11RunRec) enter(s c11StateLike) bool {
+	if _, ok := s.(*C11State); ok {
+		return true
+	}
+	f, ok := r.flags.Load(s.sKey())
+	if !ok || !atomic.CompareAndSwapInt32(f.(*int32), 0, 1) {
+		atomic.AddInt32(&r.overlaps, 1)
+		return false
+	}
+	return true
+}
+
+func (r *c11RunRec) leave(s c11StateLike) {
+	if _, ok := s.(*C11State); ok {
+		return
+	}
+	if f, ok := r.flags.Load(s.sKey()); ok {
+		atomic.StoreInt32(f.(*int32), 0)
+	}
+}
+
+func (r *c11RunRec) seeAny(s c11StateLike) {
+	if p, ok := s.(*C11State); ok {
+		r.see(p)
+	}
 }
 
 func c11Rec(ctx context.Context) *c11RunRec {
@@ -78,17 +223,22 @@ func c11P(s string) *string { return &s }
 
 // stamp: the value is extended with the state's sequence number, which is then bumped
 // (read, yield, write: an unprotected interleaving would lose the update).
-func c11Stamp(ctx context.Context, no *c11NodeObs, gid int, tag string, in string, s *C11State) string {
-	if e := c11Rec(ctx).eager; e != nil {
+func c11Stamp(ctx context.Context, no *c11NodeObs, gid int, tag string, in string, s c11StateLike) string {
+	rr := c11Rec(ctx)
+	if e := rr.eager; e != nil {
 		ok := e.enter(e.late[gid])
 		defer e.leave(ok)
 	}
-	seq := s.Seq
+	if !rr.enter(s) {
+		return in + "|" + tag + "!overlap"
+	}
+	defer rr.leave(s)
+	seq := s.sSeq()
 	runtime.Gosched()
-	s.Seq = seq + 1
-	s.Order = append(s.Order, gid)
-	c11AddID(no, s.ID)
-	c11Rec(ctx).see(s)
+	s.sSetSeq(seq + 1)
+	s.sLog(gid)
+	c11AddID(no, s.sID())
+	rr.seeAny(s)
 	return in + "|" + tag + strconv.Itoa(seq)
 }
 
@@ -136,10 +286,14 @@ func c11ReadAllMap(sr *schema.StreamReader[map[string]any], key string) (string,
 // keyed: the node has an output key (it feeds a join of a Graph), so its post-handler sees
 // map[string]any{key: out}.
 func c11HandlerOpts(f c11Flat, keyed bool) []compose.GraphAddNodeOpt {
+	return c11HandlerOptsT[*C11State](f, keyed)
+}
+
+func c11HandlerOptsT[S c11StateLike](f c11Flat, keyed bool) []compose.GraphAddNodeOpt {
 	var opts []compose.GraphAddNodeOpt
 	n, gid, path := f.Node, f.Gid, f.Path
 	preTag, postTag := fmt.Sprintf("p%d:", gid), fmt.Sprintf("q%d:", gid)
-	pre := func(ctx context.Context, in string, s *C11State) string {
+	pre := func(ctx context.Context, in string, s S) string {
 		no := c11Rec(ctx).nodes[path]
 		no.PreN++
 		no.PreIn = c11P(in)
@@ -147,7 +301,7 @@ func c11HandlerOpts(f c11Flat, keyed bool) []compose.GraphAddNodeOpt {
 		no.PreOut = c11P(out)
 		return out
 	}
-	post := func(ctx context.Context, in string, s *C11State) string {
+	post := func(ctx context.Context, in string, s S) string {
 		no := c11Rec(ctx).nodes[path]
 		no.PostN++
 		no.PostIn = c11P(in)
@@ -157,11 +311,11 @@ func c11HandlerOpts(f c11Flat, keyed bool) []compose.GraphAddNodeOpt {
 	}
 	switch n.Pre {
 	case "plain":
-		opts = append(opts, compose.WithStatePreHandler(func(ctx context.Context, in string, s *C11State) (string, error) {
+		opts = append(opts, compose.WithStatePreHandler(func(ctx context.Context, in string, s S) (string, error) {
 			return pre(ctx, in, s), nil
 		}))
 	case "stream":
-		opts = append(opts, compose.WithStreamStatePreHandler(func(ctx context.Context, in *schema.StreamReader[string], s *C11State) (*schema.StreamReader[string], error) {
+		opts = append(opts, compose.WithStreamStatePreHandler(func(ctx context.Context, in *schema.StreamReader[string], s S) (*schema.StreamReader[string], error) {
 			v, err := c11ReadAll(in)
 			if err != nil {
 				return nil, err
@@ -173,7 +327,7 @@ func c11HandlerOpts(f c11Flat, keyed bool) []compose.GraphAddNodeOpt {
 		key := n.Key
 		switch n.Post {
 		case "plain":
-			opts = append(opts, compose.WithStatePostHandler(func(ctx context.Context, in map[string]any, s *C11State) (map[string]any, error) {
+			opts = append(opts, compose.WithStatePostHandler(func(ctx context.Context, in map[string]any, s S) (map[string]any, error) {
 				v, ok := in[key].(string)
 				if !ok {
 					return nil, fmt.Errorf("post %s: no string under the output key", path)
@@ -181,7 +335,7 @@ func c11HandlerOpts(f c11Flat, keyed bool) []compose.GraphAddNodeOpt {
 				return map[string]any{key: post(ctx, v, s)}, nil
 			}))
 		case "stream":
-			opts = append(opts, compose.WithStreamStatePostHandler(func(ctx context.Context, in *schema.StreamReader[map[string]any], s *C11State) (*schema.StreamReader[map[string]any], error) {
+			opts = append(opts, compose.WithStreamStatePostHandler(func(ctx context.Context, in *schema.StreamReader[map[string]any], s S) (*schema.StreamReader[map[string]any], error) {
 				v, err := c11ReadAllMap(in, key)
 				if err != nil {
 					return nil, err
@@ -195,11 +349,11 @@ func c11HandlerOpts(f c11Flat, keyed bool) []compose.GraphAddNodeOpt {
 	}
 	switch n.Post {
 	case "plain":
-		opts = append(opts, compose.WithStatePostHandler(func(ctx context.Context, in string, s *C11State) (string, error) {
+		opts = append(opts, compose.WithStatePostHandler(func(ctx context.Context, in string, s S) (string, error) {
 			return post(ctx, in, s), nil
 		}))
 	case "stream":
-		opts = append(opts, compose.WithStreamStatePostHandler(func(ctx context.Context, in *schema.StreamReader[string], s *C11State) (*schema.StreamReader[string], error) {
+		opts = append(opts, compose.WithStreamStatePostHandler(func(ctx context.Context, in *schema.StreamReader[string], s S) (*schema.StreamReader[string], error) {
 			v, err := c11ReadAll(in)
 			if err != nil {
 				return nil, err
@@ -211,6 +365,10 @@ func c11HandlerOpts(f c11Flat, keyed bool) []compose.GraphAddNodeOpt {
 }
 
 func c11Body(ctx context.Context, f c11Flat, in string) (string, error) {
+	return c11BodyT[*C11State](ctx, f, in)
+}
+
+func c11BodyT[S c11StateLike](ctx context.Context, f c11Flat, in string) (string, error) {
 	rr := c11Rec(ctx)
 	no := rr.nodes[f.Path]
 	if f.Node.Rerun {
@@ -233,8 +391,13 @@ func c11Body(ctx context.Context, f c11Flat, in string) (string, error) {
 	no.BodyIn = c11P(in)
 	// probe: which state object do the nodes of this graph see
 	probe := -1
-	if err := compose.ProcessState[*C11State](ctx, func(_ context.Context, s *C11State) error {
-		probe = s.ID
+	if err := compose.ProcessState[S](ctx, func(_ context.Context, s S) error {
+		if rr.enter(s) {
+			probe = s.sID()
+			rr.leave(s)
+		} else {
+			probe = -2
+		}
 		return nil
 	}); err != nil {
 		probe = -1
@@ -247,15 +410,19 @@ func c11Body(ctx context.Context, f c11Flat, in string) (string, error) {
 			v += "|" + op.T
 		case "inc":
 			for i := 0; i < op.Rep; i++ {
-				err := compose.ProcessState[*C11State](ctx, func(_ context.Context, s *C11State) error {
-					x := s.Ctr[op.C]
-					runtime.Gosched()
-					s.Ctr[op.C] = x + op.D
-					s.Order = append(s.Order, f.Gid)
-					if i == 0 {
-						c11AddID(no, s.ID)
-						rr.see(s)
+				err := compose.ProcessState[S](ctx, func(_ context.Context, s S) error {
+					if !rr.enter(s) {
+						return nil
 					}
+					x := s.sCtr(op.C)
+					runtime.Gosched()
+					s.sSetCtr(op.C, x+op.D)
+					s.sLog(f.Gid)
+					if i == 0 {
+						c11AddID(no, s.sID())
+						rr.seeAny(s)
+					}
+					rr.leave(s)
 					return nil
 				})
 				if err != nil {
@@ -263,7 +430,7 @@ func c11Body(ctx context.Context, f c11Flat, in string) (string, error) {
 				}
 			}
 		case "stamp":
-			err := compose.ProcessState[*C11State](ctx, func(ctx2 context.Context, s *C11State) error {
+			err := compose.ProcessState[S](ctx, func(ctx2 context.Context, s S) error {
 				v = c11Stamp(ctx, no, f.Gid, op.Tag, v, s)
 				return nil
 			})
@@ -283,15 +450,32 @@ type c11Built struct {
 }
 
 func c11Build(l *c11Layout, gi int, ctrs int) (*c11Built, error) {
+	return c11BuildT[*C11State](l, gi, ctrs, c11NewPtr)
+}
+
+// c11BuildAs: the graphs of a case with the state type the case names.
+func c11BuildAs(stateType string, l *c11Layout, ctrs int) (*c11Built, error) {
+	switch stateType {
+	case "", "ptr":
+		return c11BuildT[*C11State](l, 0, ctrs, c11NewPtr)
+	case "mapint":
+		return c11BuildT[C11MapInt](l, 0, ctrs, c11NewMapInt)
+	case "mapany":
+		return c11BuildT[C11MapAny](l, 0, ctrs, c11NewMapAny)
+	case "box":
+		return c11BuildT[C11Box](l, 0, ctrs, c11NewBox)
+	}
+	return nil, fmt.Errorf("unknown state type %q", stateType)
+}
+
+func c11BuildT[S c11StateLike](l *c11Layout, gi int, ctrs int, mk func(id, ctrs int) S) (*c11Built, error) {
 	spec := l.Graphs[gi]
 	var gopts []compose.NewGraphOption
 	if spec.Stateful {
-		gopts = append(gopts, compose.WithGenLocalState(func(ctx context.Context) *C11State {
-			s := &C11State{ID: int(atomic.AddInt64(&c11NextID, 1)), Ctr: make([]int, ctrs), Order: []int{}}
+		gopts = append(gopts, compose.WithGenLocalState(func(ctx context.Context) S {
+			s := mk(int(atomic.AddInt64(&c11NextID, 1)), ctrs)
 			if rr := c11Rec(ctx); rr != nil {
-				rr.mu.Lock()
-				rr.genPtrs = append(rr.genPtrs, s)
-				rr.mu.Unlock()
+				rr.generated(s)
 			}
 			return s
 		}))
@@ -315,17 +499,17 @@ func c11Build(l *c11Layout, gi int, ctrs int) (*c11Built, error) {
 					}
 					m[k] = s
 				}
-				return c11Body(ctx, f, c11Render(m))
+				return c11BodyT[S](ctx, f, c11Render(m))
 			})
 		}
 		return compose.InvokableLambda(func(ctx context.Context, in string) (string, error) {
-			return c11Body(ctx, f, in)
+			return c11BodyT[S](ctx, f, in)
 		})
 	}
 	subOf := func(f c11Flat) (*c11Built, error) {
 		for sgi := range l.Graphs {
 			if l.GOwner[sgi] == f.Gid {
-				return c11Build(l, sgi, ctrs)
+				return c11BuildT[S](l, sgi, ctrs, mk)
 			}
 		}
 		return nil, errors.New("sub-graph not found")
@@ -342,7 +526,7 @@ func c11Build(l *c11Layout, gi int, ctrs int) (*c11Built, error) {
 		wf := compose.NewWorkflow[string, string](gopts...)
 		for ni := range spec.Nodes {
 			f := l.Nodes[l.GNodes[gi][ni]]
-			opts := c11HandlerOpts(f, false)
+			opts := c11HandlerOptsT[S](f, false)
 			var wn *compose.WorkflowNode
 			if f.Node.Sub != nil {
 				sb, err := subOf(f)
@@ -375,7 +559,7 @@ func c11Build(l *c11Layout, gi int, ctrs int) (*c11Built, error) {
 	g := compose.NewGraph[string, string](gopts...)
 	for ni := range spec.Nodes {
 		f := l.Nodes[l.GNodes[gi][ni]]
-		opts := c11HandlerOpts(f, feedsJoin[ni])
+		opts := c11HandlerOptsT[S](f, feedsJoin[ni])
 		if feedsJoin[ni] {
 			opts = append(opts, compose.WithOutputKey(f.Node.Key))
 		}
@@ -532,6 +716,12 @@ func c11OneRun(c *c11Case, l *c11Layout, r compose.Runnable[string, string], ri 
 			obs.States = append(obs.States, c11Snapshot(p, false))
 		}
 	}
+	for _, v := range rr.genVals {
+		so := v.sSnap(true)
+		obs.GenIDs = append(obs.GenIDs, so.ID)
+		obs.States = append(obs.States, so)
+	}
+	obs.Overlaps = int(atomic.LoadInt32(&rr.overlaps))
 	rr.mu.Unlock()
 	return
 }
@@ -543,7 +733,7 @@ func c11RunCase(idx int, c *c11Case) *c11CaseObs {
 		return o
 	}
 	c11RegOnce.Do(func() { compose.RegisterSerializableType[C11State]("verif_c11_state") })
-	if c.Kind == "resume" || c.Kind == "eager" {
+	if c.Kind == "resume" || c.Kind == "eager" || c.Kind == "paths" {
 		return c11ResumeRunCase(idx, c)
 	}
 	l := c11LayoutOf(&c.G)
@@ -551,7 +741,7 @@ func c11RunCase(idx int, c *c11Case) *c11CaseObs {
 	var err error
 	if panicked, pv := vh.Safely(func() {
 		var b *c11Built
-		b, err = c11Build(l, 0, c.Ctrs)
+		b, err = c11BuildAs(c.StateType, l, c.Ctrs)
 		if err != nil {
 			return
 		}
